@@ -8,6 +8,7 @@ Powers are exact rationals; `None` is `Option.none`.  `Power.zero()` is truthy i
 `if proposal.preferred_power:` only tests for `None`.
 -/
 import Frequenz.Extracted.Bounds
+import Frequenz.Extracted.Proposal
 
 namespace Matryoshka
 
@@ -27,14 +28,17 @@ deriving Repr, DecidableEq
 
 /-- `Proposal.__lt__`: by priority, then by source id. -/
 def Proposal.lt (a b : Proposal) : Prop :=
-  a.prio < b.prio ∨ (a.prio = b.prio ∧ a.src < b.src)
+  Extracted.Proposal.lt a.prio a.src b.prio b.src   -- regenerated from `_base_classes.py`
 
-instance (a b : Proposal) : Decidable (a.lt b) := by unfold Proposal.lt; exact inferInstance
+instance (a b : Proposal) : Decidable (a.lt b) := by
+  unfold Proposal.lt Extracted.Proposal.lt; exact inferInstance
 
 /-- `Proposal.__eq__` / `__hash__`: the key is `(priority, source_id)`. -/
-def Proposal.sameKey (a b : Proposal) : Prop := a.prio = b.prio ∧ a.src = b.src
+def Proposal.sameKey (a b : Proposal) : Prop :=
+  Extracted.Proposal.eq a.prio a.src b.prio b.src   -- regenerated from `_base_classes.py`
 
-instance (a b : Proposal) : Decidable (a.sameKey b) := by unfold Proposal.sameKey; exact inferInstance
+instance (a b : Proposal) : Decidable (a.sameKey b) := by
+  unfold Proposal.sameKey Extracted.Proposal.eq; exact inferInstance
 
 /-- Comparison used for `sorted(proposals, reverse=True)`: `a` goes before `b` when `¬ a < b`. -/
 def geB (a b : Proposal) : Bool := decide (¬ a.lt b)
@@ -112,7 +116,7 @@ def insertProposal (bucket : List Proposal) (p : Proposal) : List Proposal :=
 
 /-- `drop_old_proposals(loop_time)`. -/
 def dropOld (maxAge now : Rat) (bucket : List Proposal) : List Proposal :=
-  bucket.filter (fun p => ¬ (now - p.created > maxAge))
+  bucket.filter (fun p => ¬ Extracted.Proposal.expired now p.created maxAge)
 
 /-- Loop state of `get_status`. -/
 structure RSt where
